@@ -249,8 +249,21 @@ Record resolver := mkRes { r_index : list (ref * desc); r_tags : list (N * list 
 Definition res_init := mkRes [] [].
 
 Definition res_tag (d : desc) (r : ref) (s : resolver) : resolver :=
+  (* a reference that moves to other content leaves the tag set of its previous target *)
+  let tags0 :=
+    match get ref_eqb r (r_index s) with
+    | Some old =>
+        if d_dig old =? d_dig d then r_tags s
+        else match get N.eqb (d_dig old) (r_tags s) with
+             | Some l => let l' := set_del ref_eqb r l in
+                         if is_nil l' then del N.eqb (d_dig old) (r_tags s)
+                         else put N.eqb (d_dig old) l' (r_tags s)
+             | None => r_tags s
+             end
+    | None => r_tags s
+    end in
   mkRes (put ref_eqb r d (r_index s))
-        (put N.eqb (d_dig d) (set_add ref_eqb r (getd N.eqb (d_dig d) (r_tags s))) (r_tags s)).
+        (put N.eqb (d_dig d) (set_add ref_eqb r (getd N.eqb (d_dig d) tags0)) tags0).
 
 Definition res_untag (r : ref) (s : resolver) : resolver :=
   match get ref_eqb r (r_index s) with
@@ -504,7 +517,11 @@ Definition file_step (fixed ignore_noname disable_overwrite : bool)
   | Push d c =>
       let index_after := file_index_after d in
       if d_name d =? 0 then
-        if ignore_noname then (s, FO OOk)
+        if ignore_noname then
+          (* errSkipUnnamed: the content is discarded; restoreDuplicatesOfSkipped still reads a
+             manifest with content.ReadAll (full verification, no LimitReader) to restore the
+             titled successors (none in this universe) *)
+          if is_manifest (d_mt d) && negb (verify d c) then (s, FO (OErr EMismatch)) else (s, FO OOk)
         else match get gkey_eqb (gk d) (f_cas s) with
              | Some _ => (s, FO (OErr EAlreadyExists))
              | None =>
